@@ -342,7 +342,7 @@ def place_payload_fields(ctx, pc):
 
 
 def tab3(ctx):
-    r = RuleResult("TAB-3", "Place bit layout constants and accessor constant usage; node dispatch tables", floor=62)
+    r = RuleResult("TAB-3", "Place bit layout constants and accessor constant usage; node dispatch tables; absent ≠ zero", floor=63)
     lib = ctx.lib
     pc = place_consts(ctx)
     need = ["LAB_BIT", "COR_BIT", "DOR_BIT", "PHR_BIT",
@@ -544,7 +544,31 @@ def tab3(ctx):
             if not ok:
                 r.report("TAB-3b|%s|%s" % (fname, nk), fn_loc(fb, ln), fb.path,
                          "%s maps NodeKind::%s to calls %s / fields %s; expected %s" % (fname, nk, calls, fields, want))
-    r.analysed = {"constants": len(need), "accessors": 16, "dispatch_tables": 2, "payload_fields": {k: hex(v) for k, v in low.items()}}
+    # ---- TAB-3c: an absent node is never conflated with a zero payload
+    from facts import callee_path as _cp
+    LOSSY = ("unwrap_or", "unwrap_or_default", "unwrap_or_else", "map_or", "map_or_else", "is_some_and", "is_none_or")
+    ALLOWED = {"asca::seg::Segment::set_feat": "setting a positive feature creates the sub-node from 0 (documented)"}
+    n_lossy = 0
+    for b in lib.bodies:
+        if b.in_test_mod():
+            continue
+        k = 0
+        for bi, t in b.calls():
+            cp = _cp(t) or ""
+            inst = t["callee"].get("inst") or ""
+            if cp.startswith("core::option::Option::") and "Option::<u8>" in inst and cp.rsplit("::", 1)[-1] in LOSSY:
+                n_lossy += 1
+                ok = b.path in ALLOWED
+                loc = t["loc"].rsplit(":", 1)[0]
+                r.inst("%s collapses an Option<u8> node value with %s" % (b.path.split("::", 1)[-1], cp.rsplit("::", 1)[-1]), loc,
+                       ("accepted:" + ALLOWED[b.path]) if ok else "report")
+                if not ok:
+                    r.report("TAB-3c|%s|%s|#%d" % (b.path, cp.rsplit("::", 1)[-1], k), loc, b.path,
+                             "an absent node/sub-node (None) is collapsed to a payload value with %s: absent and Some(0) become indistinguishable (an absent sub-node must match neither + nor -, and read back as absent)"
+                             % cp.rsplit("::", 1)[-1])
+                    k += 1
+    r.analysed = {"constants": len(need), "accessors": 16, "dispatch_tables": 2, "payload_fields": {k: hex(v) for k, v in low.items()},
+                  "lossy_option_u8_sites": n_lossy}
     return r
 
 
